@@ -60,6 +60,10 @@ CLAIMED = {
    text="Lean theorems over the decision logic of ASRep.Verify and of TGSRep.DecryptEncPart + TGSRep.Verify + the checks of Client.TGSExchange: an AS reply is accepted exactly when it decrypts under the client's own key and nonce, cname, crealm, sname, srealm, addresses and KDC time match the outstanding request (RFC 4120 3.1.5), a TGS reply exactly when it decrypts under the TGT session key and nonce, cname, client realm, ticket realm, srealm, addresses and KDC time match (3.3.4), for every request, reply, clock and skew; a reply carrying another nonce (replayed from an earlier request), one that does not decrypt, and each single altered field are rejected; the time bound is decided exactly at the limit; a KRB-ERROR reply reaches the caller as that error and never as success; the unrepaired TGS exchange (reply crealm ignored) is refuted by witness. Tied to Go by replies minted with the real library's types and crypto for six etypes, password clients with every hint variant and keytab clients, with a 53-entry defect catalogue singly and in pairs: (1) the Verify functions called directly under a fake clock, (2) Client.Login / Client.GetServiceTicket (with and without a pre-authentication round) against a loopback KDC; verdict, session key and end time compared with an independent byte-level Lean verifier (RFC codec, string-to-key with hint selection, crypto, the proven decision logic).",
    note=CRYPTO_NOTE + "The RFC 6806 FAST-negotiation branch of ASRep.Verify is not modelled (requests are made with DisablePAFXFAST); KRB-ERROR codes with protocol semantics of their own (PREAUTH_REQUIRED/FAILED retry, WRONG_REALM referral) are exercised in conformant form only; the whole-exchange runs use the real clock and therefore only offsets away from the limits.",
    technique="Lean 4 proof (iff over the decision logic with decidable Prop checks) + differential run of minted KDC replies against an independent Lean verifier (direct calls under synctest fake time, whole exchanges against a loopback KDC)", design="5/C09"),
+ "C10": dict(
+   text="Lean theorems over a model of the client's bookkeeping (cache.go, session.go, client.go Login/realmLogin, TGSExchange with its referral loop, the AS retry logic, the auto-renewal timer) in which the KDC is an arbitrary table of answers: a cached ticket is handed out without asking the KDC exactly while the clock is strictly inside its validity period, outside it a renewal is attempted exactly while before renew-till; one TGS exchange sends between 1 and 7 requests whatever the KDC answers (referral bound), every one for the name asked for, and a ticket it returns is the KDC's answer to one of them; cache entries are filed under their own ticket's name, so a cache hit for an SPN is a ticket for that SPN; the auto-renewal timer fires strictly before the session ends and never with a zero wait; a TGT with more than a sixth of its life left is used without a request. Tied to Go by histories of Login / GetServiceTicket / clock steps run on the real client under a fake clock (testing/synctest) against a conformant KDC simulator for three realms (direct, configured cross-realm, one- and two-hop referrals, pre-authentication required or not with default or KDC-chosen salt, lifetimes 10 m..10 h, renewable or not, renew-till reached, auto-renewal goroutines firing, an always-refer KDC): (1) every (ticket, key) returned is checked against the issue log, the SPN and the clock, (2) the requests sent and the result of every step are compared with the model replaying the recorded answers, (3) every AS-REQ / TGS-REQ is checked byte-level by a Lean request checker (RFC codec + crypto): options, names, till/rtime from the configured lifetimes, etypes in order, nonce, PA-ENC-TIMESTAMP under the client's key (usage 1), authenticator under the session key (usage 7) naming the client's realm with the keyed checksum (usage 6) of the body.",
+   note=CRYPTO_NOTE + "The model is sequential: histories are generated so that no two auto-renewal timers fall on the same instant (concurrent renewals are C11's matter); network failures are C12's; the RFC 6806 FAST negotiation is off (DisablePAFXFAST). Observed and not counted as a violation: a non-TGT ticket presented for renewal is sent with the application key usage 11, which a conformant KDC cannot open, so expired service tickets are always requested afresh; near renew-till the renewal goroutine renews at geometrically shrinking intervals.",
+   technique="Lean 4 proof (induction over the referral loop for arbitrary KDC answers, cache invariants, decision logic) + history-by-history differential run of the real client under synctest fake time against a conformant KDC simulator, with a byte-level Lean request checker", design="5/C10"),
  "C12": dict(
    text="Lean theorems over a model of sendToKDC/dialSend*: if some endpoint on a permitted transport answers correctly and every other endpoint only refuses, closes early or is silent, the caller gets the answer of an answering endpoint, for every order of both (independently shuffled) KDC walks and every relation of request size to udp_preference_limit; no delivering endpoint gives a communication error; a KRB-ERROR from the first delivering endpoint is returned as that error, response-too-big over UDP falls back to TCP; every endpoint is contacted at most once per transport; the unrepaired shadowed-variable branch is refuted by witness. Tied to Go by scripted loopback endpoints (TCP and UDP on one port) and the real client AS exchange: all 36 assignments x 3 limits for one KDC, samples for 2-3 KDCs, comparing result class, error code, answering endpoint and contacted endpoints.",
    note="net, the 5 s deadlines and the OS are outside the model (silent endpoints cost real time, so they are sampled in the quick tier); endpoints that refuse leave no trace, so their position in the walk is not observed (it does not influence the result).",
